@@ -55,10 +55,13 @@ struct Choices {
     template <class T> const T& of(const std::vector<T>& xs) { return xs[pick((int)xs.size())]; }
 };
 
-inline rc::Gen<std::vector<uint32_t>> choiceGen(double scale = 4.0) {
-    // length grows with rapidcheck's size (<= ~100*scale); elements are full-range
-    return rc::gen::scale(scale, rc::gen::container<std::vector<uint32_t>>(
+inline rc::Gen<std::vector<uint32_t>> choiceGen(double scale = 4.0, int minSize = 0) {
+    // length grows with rapidcheck's size (<= ~100*scale); elements are full-range.  minSize lifts the size of the
+    // first cases (rapidcheck starts at size 0 = empty stream), for checks that can afford only a few cases per shard
+    auto base = rc::gen::scale(scale, rc::gen::container<std::vector<uint32_t>>(
         rc::gen::resize(100, rc::gen::inRange<uint32_t>(0, 1u << 30))));
+    if (minSize <= 0) return base;
+    return rc::gen::withSize([=](int size) { return rc::gen::resize(minSize + size * (100 - minSize) / 100, base); });
 }
 
 // ---- command line ------------------------------------------------------------
@@ -215,7 +218,7 @@ inline void installDeathHooks() {
 // Run one sub-property: body(choices) decodes a case and checks it; it calls
 // vh::fail() on a violation, or `return false` to discard.  `cases` executions.
 inline bool runProp(const std::string& sub, long cases, double scale,
-                    const std::function<void(Choices&)>& body, int maxSize = -1) {
+                    const std::function<void(Choices&)>& body, int maxSize = -1, int minSize = 0) {
     Ctx& c = ctx();
     if (cases <= 0) return true;
     uint64_t seed = mix(c.args.seed * 1000003ULL + (uint64_t)c.args.shard * 7919ULL + fnv(sub));
@@ -227,7 +230,7 @@ inline bool runProp(const std::string& sub, long cases, double scale,
     rc::detail::TestMetadata metadata;
     metadata.id = sub; metadata.description = sub;
     c.lastFail = Failure(); c.failedOnce = false; c.execAfterFail = 0;
-    auto gen = choiceGen(scale);
+    auto gen = choiceGen(scale, minSize);
     auto result = rc::detail::checkTestable([&]() {
         std::vector<uint32_t> raw = *gen;
         if (c.failedOnce && ++c.execAfterFail > c.shrinkBudget) return; // stop shrinking: keep current best
